@@ -112,6 +112,18 @@ def gen_design(rng, n_nodes, kinds, max_inputs=8, maxw=70, hier_depth=0, feedbac
     return {'inputs': pool.inputs, 'nodes': nodes, 'outputs': outs, 'order': [n['id'] for n in nodes]}
 
 
+def node_domain(desc, n):
+    """key of the nearest ancestor group that has its own clock driver ('' = top-level driver)"""
+    gd = desc.get('group_driver') or {}
+    path = list(n['grp'])
+    while path:
+        k = '/'.join(path)
+        if k in gd:
+            return k
+        path.pop()
+    return ''
+
+
 def sig_widths(desc):
     sigw = {i['name']: i['w'] for i in desc['inputs']}
     for n in desc['nodes']:
@@ -195,7 +207,17 @@ class Built:
         return g
 
     def _attach_driver(self, g, drv):
-        pass
+        """clock domain seam (C05 perm_drivers, C10): the group gets its own ClockDriver, optionally
+        gated by an enable wire; 'idiom' = 'gatedclock' routes the enable through a GatedClock block"""
+        en = self.wire(drv['en']) if drv.get('en') else None
+        if en is not None and drv.get('idiom') == 'gatedclock':
+            from py4hw.logic.clock import GatedClock
+            enout = g.wire('gclk_en', en.getWidth())
+            d = py4hw.ClockDriver(drv['name'], base=self.hw.clockDriver, enable=enout)
+            GatedClock(g, 'gclk', en, enout, d)
+            g.clockDriver = d
+        else:
+            g.clockDriver = py4hw.ClockDriver(drv['name'], base=self.hw.clockDriver, enable=en)
 
     def _producer_path(self, ref):
         t = parse_ref(ref)
